@@ -86,16 +86,17 @@ def template(kind, src_kind, amount):
 class FeeSimState(N.SimState):
     """simulated node whose run_operation answers with chosen consumptions (per content, rotating through the grids)"""
 
-    def __init__(self, pkh, counter, gas_i, sto_i, constants):
+    def __init__(self, pkh, counter, gas_i, sto_i, constants, gas_list=None):
         super().__init__(pkh, counter, noise=False)
         self.gas_i, self.sto_i, self.constants = gas_i, sto_i, constants
+        self.gas_list = gas_list            # explicit consumed_milligas per content (cycled); overrides the grid
         self.simulated = 0
 
     def run_operation(self, body):
         out = super().run_operation(body)         # strict counter check of the head context
         self.simulated += 1
         for j, c in enumerate(out['contents']):
-            mg = GAS_GRID[(self.gas_i + j) % len(GAS_GRID)]
+            mg = self.gas_list[j % len(self.gas_list)] if self.gas_list else GAS_GRID[(self.gas_i + j) % len(GAS_GRID)]
             psd, alloc = STORAGE_GRID[(self.sto_i + j) % len(STORAGE_GRID)]
             res = {'status': 'applied', 'consumed_milligas': str(mg)}
             if psd:
@@ -112,11 +113,11 @@ class FeeSimState(N.SimState):
         return out
 
 
-def make_client(src_kind, counter, gas_i, sto_i, const_name):
+def make_client(src_kind, counter, gas_i, sto_i, const_name, gas_list=None):
     from pytezos.context.impl import ExecutionContext
     from pytezos.rpc.shell import ShellQuery
     k = key(src_kind)
-    st = FeeSimState(k.public_key_hash(), counter, gas_i, sto_i, CONSTANTS[const_name])
+    st = FeeSimState(k.public_key_hash(), counter, gas_i, sto_i, CONSTANTS[const_name], gas_list)
     node = N.make_node(st, [])
     real_get = node.get
 
@@ -135,7 +136,8 @@ def run_case(case):
     from pytezos.operation.group import OperationGroup
     src, kinds = case['src'], case['kinds']
     amount = AMOUNT_CLASS[case['amount_class']]
-    ctx, st = make_client(src, COUNTER_CLASS[case['counter_class']], case.get('gas_i', 0), case.get('sto_i', 0), case['const'])
+    ctx, st = make_client(src, COUNTER_CLASS[case['counter_class']], case.get('gas_i', 0), case.get('sto_i', 0), case['const'],
+                          case.get('gas_list'))
     contents = [template(k, src, amount) for k in kinds]
     g = OperationGroup(context=ctx, contents=contents)
     args = dict(case.get('args') or {})
@@ -156,6 +158,14 @@ def run_case(case):
         return None
     n = len(out)
     fees = [int(c['fee']) for c in out]
+    if n >= 5:
+        short = F.min_fee_mutez(out, m_eff) - sum(fees)
+        return dict(clause=f'{mode}::ensures.mempool_minimum',
+                    detail=(f'{src} source, batch of {n} ({kinds[0]} … {kinds[-1]}), {mode}({", ".join(f"{k}={v}" for k, v in args.items())}): '
+                            f'total fee {sum(fees)} mutez < minimum {F.min_fee_mutez(out, m_eff)} mutez (size {F.signed_size(out)} bytes, '
+                            f'gas limits {sorted(set(int(c["gas_limit"]) for c in out))}, fee fields {sorted(set(fees))})'),
+                    wclass=f'{mode}: large batch (>= 5 contents) short by {"1..10" if short <= 10 else "more than 10"} mutez',
+                    paid=paid // 1000, need=F.min_fee_mutez(out, m_eff))
     shape = 'single content' if n == 1 else ('batch, fee only on the first content' if all(f == 0 for f in fees[1:]) else 'batch, fees on several contents')
     why = []
     if mode == 'fill' and n > 1 and all(f == 0 for f in fees[1:]):
@@ -179,7 +189,8 @@ def work(cases):
     for case in cases:
         r = run_case(case)
         n += 1
-        key_ = repr((case['mode'], case['src'], len(case['kinds']), tuple(sorted(case.get('args') or {})), case['const']))
+        key_ = repr((case['mode'], case['src'], len(case['kinds']), tuple(sorted(case.get('args') or {})), case['const'],
+                     tuple(g % 10000 for g in case['gas_list'][:2]) if case.get('gas_list') else None))
         classes[key_] = classes.get(key_, 0) + 1
         if r is not None:
             out.append(dict(r, case=case))
